@@ -1603,7 +1603,12 @@ class CodeGenerator(NodeVisitor):
             self.write("escape(")
         else:
             self.write("str(")
-        self.visit_Filter(node.filter, filter_frame)
+        # The filter's arguments belong to the enclosing scope (the symbol
+        # analysis reads their names there): what the body assigns is not
+        # visible to them.  Only the buffer is the block's.
+        arg_frame = frame.copy()
+        arg_frame.buffer = filter_frame.buffer
+        self.visit_Filter(node.filter, arg_frame)
         self.write(")")
         self.end_write(frame)
         self.leave_frame(filter_frame)
@@ -1901,7 +1906,10 @@ class CodeGenerator(NodeVisitor):
             # The filter gets the captured block as Markup, but may return
             # a plain string that still needs escaping.
             self.write(" = (escape if context.eval_ctx.autoescape else identity)(")
-            self.visit_Filter(node.filter, block_frame)
+            # as for a filter block: arguments in the enclosing scope
+            arg_frame = frame.copy()
+            arg_frame.buffer = block_frame.buffer
+            self.visit_Filter(node.filter, arg_frame)
         else:
             self.write(" = (Markup if context.eval_ctx.autoescape else identity)(")
             self.write(f"concat({block_frame.buffer})")
